@@ -3,7 +3,7 @@
 (* ({a, args, res, post} per ABCI call, written by the Go harness) is judged *)
 (* against Chain!Step from the OBSERVED pre-state (DESIGN 5.3), and every    *)
 (* property monitor is evaluated on every observed state / step pair.        *)
-EXTENDS Chain, Json, IOUtils
+EXTENDS Props, Json, IOUtils
 
 Trace == ndJsonDeserialize(IOEnv.TRACE_FILE)
 
@@ -16,7 +16,7 @@ InitAux == [props |-> <<>>, nextProp |-> 1]
 
 ------------------------------------------------------------------------------
 (* L2: view comparison between the expected and the observed post-state *)
-FieldDiff(pfx, e, o, fields) == { <<pfx, f>> : f \in { g \in fields : e[g] # o[g] } }
+FieldDiff(pfx, e, o, fields) == { pfx \o <<f>> : f \in { g \in fields : e[g] # o[g] } }
 BalDiff(e, o) == { <<"bal", a, d>> : a \in DOMAIN o.bal, d \in Denoms } \cap
                  { <<"bal", a, d>> : a \in { x \in DOMAIN o.bal : TRUE }, d \in { y \in Denoms : TRUE } } \cap
                  { t \in { <<"bal", a, d>> : a \in DOMAIN o.bal, d \in Denoms } : e.bal[t[2]][t[3]] # o.bal[t[2]][t[3]] }
@@ -26,11 +26,11 @@ ChDiff(k, e, o) ==
   ELSE UNION { FieldDiff(<<k, "ch", i>>, e[k].ch[i], o[k].ch[i], DOMAIN e[k].ch[i]) : i \in DOMAIN e[k].ch }
 StateDiff(e, o) ==
   BalDiff(e, o)
-  \cup FieldDiff("supply", e.supply, o.supply, Denoms)
-  \cup FieldDiff("ent", e.ent, o.ent, EntFields)
-  \cup FieldDiff("wrk", e.wrk, o.wrk, {"p", "next"}) \cup ChDiff("wrk", e, o)
-  \cup FieldDiff("bcn", e.bcn, o.bcn, {"p", "next"}) \cup ChDiff("bcn", e, o)
-  \cup FieldDiff("str", e.str, o.str, {"p", "s"})
+  \cup FieldDiff(<<"supply">>, e.supply, o.supply, Denoms)
+  \cup FieldDiff(<<"ent">>, e.ent, o.ent, EntFields)
+  \cup FieldDiff(<<"wrk">>, e.wrk, o.wrk, {"p", "next"}) \cup ChDiff("wrk", e, o)
+  \cup FieldDiff(<<"bcn">>, e.bcn, o.bcn, {"p", "next"}) \cup ChDiff("bcn", e, o)
+  \cup FieldDiff(<<"str">>, e.str, o.str, {"p", "s"})
   \cup (IF e.halted # o.halted THEN {<<"halted">>} ELSE {})
   \cup (IF e.time # o.time THEN {<<"time">>} ELSE {})
 
@@ -39,6 +39,28 @@ OutDiff(eo, oo) ==
   ELSE UNION { FieldDiff(<<"outs", i>>, eo[i], oo[i], (DOMAIN eo[i]) \cap (DOMAIN oo[i])) : i \in DOMAIN eo }
 
 ------------------------------------------------------------------------------
+(* which listed properties a differing view component speaks about *)
+ChFieldProps(f) ==
+  CASE f \in {"id", "owner", "moniker", "name", "genesis", "type", "reg"} -> {"C09"}
+    [] f \in {"recs", "iter", "last"} -> {"C07", "C08"}
+    [] f \in {"num", "low", "limit", "hasLimit", "stor"} -> {"C08"}
+    [] OTHER -> {"C08"}
+DiffProps(d, ev) ==
+  CASE d[1] = "bal" -> (IF d[2] = "ent" THEN {"C04", "C05"} ELSE IF d[2] = "stream" THEN {"C10"} ELSE
+                        IF ev.a = "DeliverTx" /\ \E i \in DOMAIN ev.args.msgs : ev.args.msgs[i].t \in {"SCreate", "SClaim", "STopUp", "SRate", "SCancel"}
+                        THEN {"C10", "C11"} ELSE {"C05", "C14"})
+    [] d[1] = "supply" -> {"C02"}
+    [] d[1] = "ent" -> (IF d[2] \in {"po", "rq", "aq", "wl", "next"} THEN {"C03"}
+                        ELSE IF d[2] = "p" THEN {"C16"} ELSE {"C04", "C05"})
+    [] d[1] \in {"wrk", "bcn"} -> (IF d[2] = "p" THEN {"C16"} ELSE IF d[2] = "next" THEN {"C09"} ELSE {})
+    [] d[1] = "str" -> (IF d[2] = "p" THEN {"C16"} ELSE {"C10", "C11"})
+    [] d[1] = "halted" -> {"C14"}
+    [] d[1] = "outs" -> {"C09", "C07", "C11"}
+    [] OTHER -> {}
+\* chain-record diffs carry the path <<k, "ch", i, field>>
+PathProps(d, ev) == IF d[1] \in {"wrk", "bcn"} /\ d[2] = "ch" THEN (IF Len(d) >= 4 THEN ChFieldProps(d[4]) ELSE {"C09"})
+                    ELSE DiffProps(d, ev)
+
 (* L1: property monitors on one observed state *)
 StateMonitors(o) ==
   { <<"C02", "SumBalEqualsSupply">> : x \in { d \in Denoms : o.sumBal[d] # o.supply[d] } }
@@ -57,26 +79,59 @@ StateMonitors(o) ==
   \cup (IF ~RegistryOk(o, "wrk") THEN {<<"C08", "RegistryOkWrk">>} ELSE {})
   \cup (IF ~RegistryOk(o, "bcn") THEN {<<"C08", "RegistryOkBcn">>} ELSE {})
 
+(* L1: property monitors on one observed step s --ev--> t *)
+StepMonitors(s, t, ev) ==
+     (IF ~StatusMonotone(s, t) THEN {<<"C03", "StatusMonotone">>} ELSE {})
+  \cup (IF ~TerminalFrozen(s, t) THEN {<<"C03", "TerminalFrozen">>} ELSE {})
+  \cup (IF ~PoNeverVanish(s, t) THEN {<<"C03", "PoNeverVanish">>} ELSE {})
+  \cup (IF PoNeverVanish(s, t) /\ ~PoFieldsImmutable(s, t) THEN {<<"C03", "PoFieldsImmutable">>} ELSE {})
+  \cup (IF ~StatusOnlyInBeginBlock(s, t, ev) THEN {<<"C03", "StatusOnlyInBeginBlock">>} ELSE {})
+  \cup (IF ~OneBlockDelay(s, t, ev) THEN {<<"C03", "OneBlockDelay">>} ELSE {})
+  \cup (IF ~CreditExactlyOnce(s, t, ev) THEN {<<"C03", "CreditExactlyOnce">>} ELSE {})
+  \cup (IF ~RaiseOnlyWhitelisted(s, t) THEN {<<"C03", "RaiseOnlyWhitelisted">>} ELSE {})
+  \cup (IF PoNeverVanish(s, t) /\ ~DecideOnlyCurrentSignerOnce(s, t) THEN {<<"C03", "DecideOnlyCurrentSignerOnce">>} ELSE {})
+  \cup (IF ~C04Step(s, t, ev) THEN {<<"C04", "EscrowOnlyByCompletionOrUnlock">>} ELSE {})
+  \cup (IF ~C02Step(s, t, ev) THEN {<<"C02", "MintOnlyByCompletion">>} ELSE {})
+  \cup (IF ~C05Step(s, t, ev) THEN {<<"C05", "LockedDropsOnlyByFeeTx">>} ELSE {})
+
 ------------------------------------------------------------------------------
 IsReset(ev) == ev.a = "InitChain"
+
+Tag(i, layer, props, detail) == { <<i, layer, p, detail>> : p \in props }
 
 Judge(i) ==
   LET ev  == Trace[i]
       pre == Trace[i - 1].post @@ [aux |-> aux]
       exp == Step(pre, ev.args)
-  IN { <<i, "L2", d>> : d \in StateDiff(exp.st, ev.post) }
-     \cup (IF exp.ok # ev.res.ok THEN {<<i, "L2", <<"res.ok", exp.ok>> >>} ELSE {})
-     \cup (IF exp.ok /\ ev.res.ok /\ ev.a = "DeliverTx" THEN { <<i, "L2", d>> : d \in OutDiff(exp.out, ev.res.outs) } ELSE {})
-     \cup { <<i, "L1", m>> : m \in StateMonitors(ev.post) }
+      evm == ev.args @@ [a |-> ev.a]
+  IN UNION { Tag(i, "L2", PathProps(d, ev), d) : d \in StateDiff(exp.st, ev.post) }
+     \cup (IF exp.ok # ev.res.ok THEN {<<i, "L2", "note", <<"res.ok", exp.ok>> >>} ELSE {})
+     \cup (IF exp.ok /\ ev.res.ok /\ ev.a = "DeliverTx"
+           THEN UNION { Tag(i, "L2", PathProps(d, ev), d) : d \in OutDiff(exp.out, ev.res.outs) } ELSE {})
+     \cup { <<i, "L1", m[1], m[2]>> : m \in StateMonitors(ev.post) }
+     \cup { <<i, "L1", m[1], m[2]>> : m \in StepMonitors(Trace[i - 1].post, ev.post, evm) }
+
+RECURSIVE GetPath(_, _)
+GetPath(v, path) == IF path = <<>> THEN v ELSE GetPath(v[Head(path)], Tail(path))
+\* diagnostic: with EXPLAIN=<line> in the environment print expected and observed values of that line's diffs
+Explain(i) ==
+  IF "EXPLAIN" \in DOMAIN IOEnv /\ IOEnv.EXPLAIN = ToString(i) /\ ~IsReset(Trace[i])
+  THEN LET ev == Trace[i]
+           exp == Step(Trace[i - 1].post @@ [aux |-> aux], ev.args)
+       IN /\ PrintT(<<"EXPLAIN", ToJson([line |-> i, ev |-> ev.args, res |-> ev.res, expOk |-> exp.ok, expOut |-> exp.out])>>)
+          /\ \A d \in StateDiff(exp.st, ev.post) :
+                PrintT(<<"EXPLAIN", ToJson([line |-> i, path |-> d, expected |-> GetPath(exp.st, d), observed |-> GetPath(ev.post, d)])>>)
+  ELSE TRUE
 
 TraceInit == l = 1 /\ aux = InitAux /\ bad = {}
 
 TraceNext ==
   /\ l <= Len(Trace)
   /\ l' = l + 1
+  /\ Explain(l)
   /\ IF IsReset(Trace[l])
      THEN /\ aux' = InitAux
-          /\ bad' = bad \cup { <<l, "L1", m>> : m \in StateMonitors(Trace[l].post) }
+          /\ bad' = bad \cup { <<l, "L1", m[1], m[2]>> : m \in StateMonitors(Trace[l].post) }
      ELSE /\ aux' = Step(Trace[l - 1].post @@ [aux |-> aux], Trace[l].args).st.aux
           /\ bad' = bad \cup Judge(l)
 
